@@ -134,6 +134,19 @@ void enumerate(vf::Enum& e)
     }
     e.exhaustive = true;
     e.space = "all (total, world, rank) with total <= 300, world <= 64, rank < world";
+    if (vf::thorough())
+    {
+        // thorough tier: a larger box through tape class 1 (world <= 4096, total <= 2^20 decode directly)
+        for (std::uint64_t world = 1; world <= 512; ++world)
+        {
+            for (std::uint64_t total = 0; total <= 2100; ++total)
+            {
+                if (world <= 64 && total <= 300) { continue; }
+                if (!e.exec({1, world - 1, total})) { return; }
+            }
+        }
+        e.space = "all (total, world, rank) with total <= 2100, world <= 512, rank < world";
+    }
 }
 
 } // namespace
